@@ -215,9 +215,15 @@ def run_item(ctx, item):
     rng = ctx.rng(item[0], item[1])
     if item[0] == "single":
         part, _ = gen_score.make_part(rng, "P1", profile="basic")
-        form = rng.choice(["list", "group", "part-in-nested-group"])
+        form = rng.choice(["list", "group", "part-in-nested-group", "score", "score-of-group", "tuple-of-group"])
         if form == "list":
             arg = [part]
+        elif form == "score":
+            arg = S.Score(partlist=[part], id="s")
+        elif form in ("score-of-group", "tuple-of-group"):
+            g = S.PartGroup("brace", "g")
+            g.children = [part]
+            arg = S.Score(partlist=[g], id="s") if form == "score-of-group" else [g]
         else:
             g = S.PartGroup("brace", "g")
             g.children = [part]
